@@ -580,6 +580,10 @@ func c12AllowedGuard(c *Ctx, cond ssa.Value) (bool, string) {
 
 func c12PreviousOutputPredicate(c *Ctx, call *ssa.Call) (bool, string) {
 	L := c.L
+	// the predicate as a named function or method that receives the set: pred(set, f)
+	if cal := call.Common().StaticCallee(); cal != nil && len(cal.Blocks) > 0 && cal.Parent() == nil && cal.Pkg != nil && cal.Pkg.Pkg.Path() == genPkg {
+		return c12PreviousOutputFunc(c, call, cal)
+	}
 	s := newSym(L, map[string]bool{})
 	terms := s.eval(call.Common().Value)
 	if len(terms) != 1 || !strings.HasPrefix(terms[0], "closure:") {
@@ -752,4 +756,107 @@ func poolCallChains(c *Ctx, pf *ssa.Function, match func(*ssa.Function) bool) []
 	}
 	search(pf, nil, 0)
 	return out
+}
+
+// c12PreviousOutputFunc: the skip predicate written as a function pred(..., set, ..., file): true only by membership of the
+// file's absolute path in the set parameter, and the set handed in at the call site holds exactly the output names of the
+// package's syntax files (built in place, or by a builder function applied to pkg.Syntax).
+func c12PreviousOutputFunc(c *Ctx, call *ssa.Call, pred *ssa.Function) (bool, string) {
+	L := c.L
+	c.seen(fnName(pred))
+	var setParam *ssa.Parameter
+	for _, r := range returnsOf(pred) {
+		v := r.Results[0]
+		if k, ok := v.(*ssa.Const); ok && k.Value != nil && k.Value.String() == "false" {
+			continue
+		}
+		ex, ok := resolve(v).(*ssa.Extract)
+		if !ok || ex.Index != 1 {
+			return false, "the skip predicate can return true other than by set membership: " + describe(v)
+		}
+		lk, ok := ex.Tuple.(*ssa.Lookup)
+		if !ok {
+			return false, "the skip predicate is not a set lookup"
+		}
+		ks := newSym(L, map[string]bool{})
+		key := strings.Join(ks.eval(lk.Index), "|")
+		if !strings.HasPrefix(key, "path/filepath.Abs#0(") || !strings.Contains(key, "go/token.Position.Filename(") {
+			return false, "the skip predicate looks up something other than the file's absolute path: " + key
+		}
+		p, isP := resolve(lk.X).(*ssa.Parameter)
+		if !isP || p.Parent() != pred {
+			return false, "the set consulted by the skip predicate is not handed in by the caller"
+		}
+		setParam = p
+	}
+	if setParam == nil {
+		return false, "the skip predicate has no recognisable membership test"
+	}
+	idx := -1
+	for i, q := range pred.Params {
+		if q == setParam {
+			idx = i
+		}
+	}
+	if idx < 0 || idx >= len(call.Common().Args) {
+		return false, "cannot match the set parameter to an argument"
+	}
+	arg := resolve(call.Common().Args[idx])
+	switch m := arg.(type) {
+	case *ssa.MakeMap:
+		return c12SetMembers(c, m)
+	case *ssa.Call:
+		b := m.Common().StaticCallee()
+		if b == nil || len(b.Blocks) == 0 {
+			return false, "the skip set comes from " + describe(m)
+		}
+		c.seen(fnName(b))
+		// the builder is applied to the package's syntax files
+		s := newSym(L, map[string]bool{})
+		s.maxD = 0
+		fromSyntax := false
+		var filesParam *ssa.Parameter
+		for i, a := range m.Common().Args {
+			if strings.Contains(strings.Join(s.eval(a), "|"), "packages.Package.Syntax(") && i < len(b.Params) {
+				fromSyntax = true
+				filesParam = b.Params[i]
+			}
+		}
+		if !fromSyntax {
+			return false, "the skip set is not built from the package's syntax files"
+		}
+		n := 0
+		for _, r := range returnsOf(b) {
+			mm, ok := resolve(r.Results[0]).(*ssa.MakeMap)
+			if !ok {
+				return false, "the set builder returns " + describe(r.Results[0])
+			}
+			for _, rr := range *mm.Referrers() {
+				mu, ok := rr.(*ssa.MapUpdate)
+				if !ok || mu.Map != ssa.Value(mm) {
+					continue
+				}
+				n++
+				kc, ok := mu.Key.(*ssa.Call)
+				if !ok || kc.Common().StaticCallee() == nil || kc.Common().StaticCallee() != resolveRole(c, genPkg, "outputFileName") {
+					return false, "a member of the skip set is not outputFileName(...): " + describe(mu.Key)
+				}
+				at := strings.Join(s.eval(kc.Common().Args[0]), "|")
+				if !strings.HasPrefix(at, "path/filepath.Abs#0(") || !strings.Contains(at, "index(param:"+filesParam.Name()+")") {
+					return false, "skip-set member is not derived from an element of the files handed in: " + at
+				}
+			}
+		}
+		if n == 0 {
+			return false, "the skip set has no insertions"
+		}
+		if ofn := resolveRole(c, genPkg, "outputFileName"); ofn != nil {
+			t := strings.Join(newSym(L, map[string]bool{}).evalFn(ofn, 0), "|")
+			if !strings.Contains(t, `"_band"`) || !strings.Contains(t, "path/filepath.Ext(param:") {
+				return false, "outputFileName is not <name>_band<ext>: " + t
+			}
+		}
+		return true, "files skipped are exactly those named outputFileName(<a syntax file of the same package>) (set built by " + b.Name() + ")"
+	}
+	return false, "cannot identify the set the skip predicate consults: " + describe(arg)
 }
